@@ -456,7 +456,7 @@ def insertion_rules(repo):
         if ta == "x = x[:, :, -X.shape[-1]:]" and tb == "x = x[:, :, :X.shape[-1]]":
             out.append(holds("R-SIB", fi, role, "left: %s | right: %s" % (ta, tb), n))
         elif ta == "x = x[:, :, :X.shape[-1]]" and tb == "x = x[:, :, -X.shape[-1]:]":
-            out.append(violation("R-SIB", fi, role, "trim sides are exchanged (left=True keeps the first L positions)", n))
+            out.append(named("R-SIB", fi, role, "trim sides are exchanged (left=True keeps the first L positions)", n))
         else:
             out.append(unrecognised("R-SIB", fi, role, "left: %s | right: %s" % (ta, tb), n))
     # start from the example's own row
